@@ -137,6 +137,23 @@ CLAIMED = {
                      "machine, termination measures) + differential correspondence on a malformed-input stream, dev and release",
         "design_ref": "DESIGN.md section 7 (C07)",
     },
+    "C08": {
+        "category": "proof",
+        "text": "Theorems over the complete writer/reader with the dbase crate MODELLED as an ordered row store (not verified): "
+                "C08_rejected_call (a call that fails for its shape's type changes nothing: writer state, table, both "
+                "destinations), C08_history (for every history of calls with acceptable rows, mismatch failures interleaved "
+                "anywhere: every call returns Ok or the mismatch error, the table holds exactly the rows of the accepted calls in "
+                "order and as many rows as shapes were accepted = .shp records = .shx entries), C08_pairs + C08_pairs_spec (with "
+                "one row per record, iteration from an aligned position - fresh, or after seek(k) - yields the pairs (shape i, "
+                "row i) in order, then ends). KNOWN FINDING F10: a call whose row the table rejects leaves the shape behind "
+                "(C08_row_rejection_witness; listed in known_findings.json, reported as KNOWN-FINDING). Tie: exhaustive bounded "
+                "histories incl. both row-rejection kinds through the real Writer, real dbase and real Reader, plus 1030 pairs.",
+        "note": COMMON_NOTE + "dbase::TableWriter / Reader / RecordIterator / seek are modelled (Model/Complete.v). Path-created "
+                "files (Writer::from_path, Reader::from_path) are not exercised.",
+        "technique": "Coq proof (refinement to an abstract list of pairs over a modelled row store) + exhaustive bounded-history "
+                     "differential correspondence through the real dbase crate",
+        "design_ref": "DESIGN.md section 7 (C08)",
+    },
     "C09": {
         "text": "Theorems over every history of calls {write s, finalize} (any shapes of any types, rejected writes included; any "
                 "length), with or without index destination, ending in drop or finalize-then-drop: C09_finalize_irrelevant (both "
